@@ -239,6 +239,11 @@ def enum_tasks(tier, seed):
     for cfg in SCOPE[tier]['configs']:
         for c in range(per):
             tasks.append({'config': cfg, 'chunk': c, 'of': per})
+    if tier == 'quick':
+        # a targeted slice of the windowed pairs: a not-found on one of the reads of the temp directories, followed by a
+        # not-found or stale listing within the next WINDOW calls (the read paths are where a fallback could re-list)
+        for c in range(8):
+            tasks.append({'config': 'ext', 'chunk': c, 'of': 8, 'pairs': 'read-paths'})
     if tier == 'thorough':
         # every pair (first fault at k1, second fault within the next WINDOW calls of the faulty run): the second fault
         # lands in whatever recovery path the first one opened, including calls that never occur in a fault-free run
@@ -260,7 +265,12 @@ def run_enum_task(task):
     for k in range(1, K + 1):
         op = b['trace'][k - 1][0]
         for kind in faultfs.kinds_for(op):
-            if task.get('pairs'):
+            if task.get('pairs') == 'read-paths':
+                if kind == 'fnf' and b['trace'][k - 1][2] in ('read_parquet', 'read_parquet_retry'):
+                    for d in range(1, WINDOW + 1):
+                        for kind2 in ('fnf', 'stale'):
+                            plans.append([[k, kind], [k + d, kind2]])
+            elif task.get('pairs'):
                 for d in range(1, WINDOW + 1):
                     for kind2 in ('oserror', 'fnf', 'stale'):
                         plans.append([[k, kind], [k + d, kind2]])
